@@ -575,3 +575,12 @@ func vBreakLineOrphansWidows() (int, []string) {
 //@   assert after rightPage#5: !in(pageBreak, "right", "left", "recto", "verso") && rightPage == ltr
 //@   call append#1 assert[side-kept] arg1[0].RightPage == rightPage
 //@   call append#1 assert[first-page-starts-the-document] len(arg1) == 1 && arg1[0].InitialResumeAt == nil && arg1[0].InitialNextPage.Break == "any"
+
+// C11 (white-space processing of inline content): between two children of an inline box a break
+// opportunity is suppressed by the white-space of the box that contains both, not by the child's own
+// value (a nowrap span inside a wrapping paragraph may still be followed by a break).
+//@ func splitInlineBox
+//@   props C11
+//@   modifies anything
+//@   assert after canBreak#1: box.Style.GetWhiteSpace() == "pre" || box.Style.GetWhiteSpace() == "nowrap"
+//@   unclaimed call-MarginWidth@*-pre1 "the margins, borders, paddings and width of a laid-out inline-level box are resolved (not tracked through the box tree)"
